@@ -114,11 +114,36 @@ func (c11) Run(t *tape.Tape, tier Tier) *Result {
 			nondefault++
 		}
 	}
+	// per flow: what was observed where the flow started (flow 0: the
+	// origin; further flows: a relay that annotated what it had received)
+	type origin struct {
+		want     []obs.Node
+		acc      []obs.KV
+		skipPred bool
+	}
+	origins := map[int]origin{0: {want, acc0, skipPred}}
+	nextFlow := 1
 	sim.OnDeliver = func(d *world.Delivery) {
-		where := fmt.Sprintf("hop %d at process %d via %s", d.Msg.Hop, d.Proc.ID, routeString(d.Msg.Path))
+		where := fmt.Sprintf("flow %d hop %d at process %d via %s", d.Msg.Flow, d.Msg.Hop, d.Proc.ID, routeString(d.Msg.Path))
+		o := origins[d.Msg.Flow]
+		want, acc0, skipPred := o.want, o.acc, o.skipPred
 		if d.Panic != "" || d.RePanic != "" {
 			res.add(Violation{Prop: "C11", Oracle: "transfer", Culprit: typeOfLayer(want[0]), Expected: "no panic", Observed: d.Panic + d.RePanic, Where: where})
 			return
+		}
+		if d.Forward && nextFlow < 3 && t.Bool(1, 6) {
+			over := g.Over(1 + t.Draw(3))
+			gen.GivenErr = d.Err
+			e2 := gen.Build(over)
+			gen.GivenErr = nil
+			if data, p := obs.Encode(e2); p == "" {
+				w2 := obs.Tree(e2, true)
+				origins[nextFlow] = origin{w2, obs.Accessors(e2), foreignPredicateLayer(w2)}
+				sim.Stats.Faults["rewrapped-at-relay"]++
+				res.Desc.Tree += fmt.Sprintf(" ; relay %d wraps flow %d as flow %d: %s", d.Proc.ID, d.Msg.Flow, nextFlow, over.Expr())
+				sim.Send(nextFlow, 1, d.Msg.Path[:len(d.Msg.Path)-1], append([]int{d.Proc.ID}, d.Msg.Route...), data)
+				nextFlow++
+			}
 		}
 		acc := obs.Accessors(d.Err)
 		for i, kv := range acc0 {
